@@ -2,7 +2,7 @@
 import json, os, shutil
 import vlib
 
-OPS = {'C08': ('observeon', 'subscribeon', 'tochannel'), 'C17': ('tochannel', 'fromchannel')}
+OPS = {'C08': ('observeon', 'subscribeon', 'tochannel'), 'C17': ('tochannel', 'fromchannel', 'tochannelsync')}
 
 
 def model_part(rep):
@@ -54,7 +54,7 @@ def trace_part(rep, pid, n, seeds):
                 with open(rp, 'w') as fh:
                     fh.write(''.join(v['traces'][t]))
                 desc = 'real %s trace rejected by DetachTrace at event %s: %s; scenario %s' % (sc.get('Op'), info.get('at'), json.dumps(info.get('event')), json.dumps(sc))
-                rep.add_violation('detach.trace', desc, replay_path=rp, components=[sc.get('Op')])
+                rep.add_violation('detach.trace', desc, replay_path=rp, components=[sc.get('Op')], case=dict(scenario=sc, events=[json.loads(x) for x in v['traces'][t]]), mismatch=info)
         rep.cov['traces_validated_against_impl'] += total
         rep.cov['evaluations'] += total
         rep.cov['distinct_nontrivial'] += nontriv
